@@ -2,12 +2,8 @@
 //@use prelude/head.rs
 // not under contract: the rest of the lex specification parser and the lexer-definition accessors (judged by the c11 sweep of generated specifications when one changes)
 //@pin file=lrlex/src/lib/parser.rs fn=new_with_lex_flags sha=a76f5cdc9df63758
-//@pin file=lrlex/src/lib/parser.rs fn=validate_start_state sha=5fad04a1130600f8
-//@pin file=lrlex/src/lib/parser.rs fn=validate_start_state_name sha=66b2134cf6b64e66
 //@pin file=lrlex/src/lib/parser.rs fn=parse_start_state_ops sha=d3d14a9de1aad6b3
 //@pin file=lrlex/src/lib/parser.rs fn=unescape sha=6e67076af2e6e3bd
-//@pin file=lrlex/src/lib/parser.rs fn=add_duplicate_occurrence sha=b02837fbe7096836
-//@pin file=lrlex/src/lib/parser.rs fn=get_start_state_by_name sha=cd400f97ff97934b
 //@pin file=lrlex/src/lib/parser.rs fn=matches_whitespace sha=b207bc6cc0894cff
 //@pin file=lrlex/src/lib/lexer.rs fn=set_rule_ids nth=1 sha=2c86bc8838716c67
 //@pin file=lrlex/src/lib/lexer.rs fn=state_matches sha=3a6847763eb28663
